@@ -252,6 +252,79 @@ fn threshold_sweep() -> (u64, Vec<(String, String, String)>) {
     (n, bad)
 }
 
+/// Every byte value at every port: from each of a set of prior board states, (1) write(port, v) for
+/// the four ports and all 256 values, each followed by every external event; (2) every ordered pair
+/// of writes to the control port 0xF2 (all 65 536), then two external events; compared with
+/// REF-BOARD after every operation.
+fn port_value_sweep(full: bool) -> (u64, Vec<(String, String, String)>) {
+    let priors: Vec<Vec<Op>> = vec![
+        vec![],
+        vec![Op::Uio(0, true), Op::Uio(2, true), Op::J1(true), Op::Ai1(1.5), Op::Temp(3.0)],
+        vec![Op::W(0xF2, 0x85), Op::W(0xF2, 0x02), Op::Uio(1, true), Op::J2(true), Op::W(0xF0, 120), Op::W(0xF1, 200), Op::Ai1(1.3), Op::Ai2(1.9)],
+        vec![Op::W(0xF2, 0xC9), Op::Uio(0, true), Op::W(0xF2, 0xC6), Op::J1(true), Op::J1(false), Op::Di1(0x5A)],
+        vec![Op::W(0xF2, 0x87), Op::W(0xF2, 0x07), Op::W(0xF2, 0xCB), Op::W(0xF0, 255), Op::W(0xF1, 1), Op::Ai1(5.0), Op::Ai2(0.0)],
+    ];
+    let events: Vec<Op> = vec![
+        Op::J1(true), Op::J1(false), Op::J2(true), Op::Uio(0, true), Op::Uio(0, false), Op::Uio(1, true), Op::Uio(1, false), Op::Uio(2, true), Op::Uio(2, false),
+        Op::Ai1(1.25), Op::Ai1(0.0), Op::Ai2(2.0), Op::Temp(2.1), Op::W(0xF3, 0), Op::W(0xF0, 100), Op::W(0xF1, 100),
+    ];
+    let n1 = priors.len() * 4 * 256;
+    let n2 = if full { priors.len() * 65536 } else { 2 * 65536 };
+    let res = mc::par_ranges(n1 + n2, 512, |rg| {
+        let mut bad: Vec<(String, String, String)> = vec![];
+        let mut n = 0u64;
+        let mut try_ops = |ops: &[Op], n: &mut u64, bad: &mut Vec<(String, String, String)>| {
+            *n += ops.len() as u64;
+            if let Some((k, w)) = run_ops(ops) {
+                if bad.len() < 4 {
+                    bad.push((k, w, line(ops)));
+                }
+            }
+        };
+        for i in rg {
+            if i < n1 {
+                let (pi, rest) = (i / 1024, i % 1024);
+                let (port, v) = (0xF0 + (rest / 256) as u8, (rest % 256) as u8);
+                for e in &events {
+                    let mut ops = priors[pi].clone();
+                    ops.push(Op::W(port, v));
+                    ops.push(*e);
+                    // the complementary level afterwards, so that both transitions of the event are seen
+                    ops.push(match *e {
+                        Op::J1(b) => Op::J1(!b),
+                        Op::J2(b) => Op::J2(!b),
+                        Op::Uio(k, b) => Op::Uio(k, !b),
+                        Op::Ai1(_) => Op::Ai1(4.9),
+                        Op::Ai2(_) => Op::Ai2(4.9),
+                        Op::Temp(_) => Op::Temp(4.9),
+                        other => other,
+                    });
+                    try_ops(&ops, &mut n, &mut bad);
+                }
+            } else {
+                let j = i - n1;
+                let (pi, rest) = (j / 65536, j % 65536);
+                let (v1, v2) = ((rest >> 8) as u8, (rest & 0xFF) as u8);
+                let mut ops = priors[if full { pi } else { pi + 1 }].clone();
+                ops.extend([Op::W(0xF2, v1), Op::W(0xF2, v2), Op::Uio((v1 % 3) as u8, v2 & 1 == 0), Op::J1(v1 & 1 == 0), Op::Uio((v2 % 3) as u8, v1 & 2 == 0)]);
+                try_ops(&ops, &mut n, &mut bad);
+            }
+        }
+        (n, bad)
+    });
+    let mut n = 0;
+    let mut bad = vec![];
+    for (c, b) in res {
+        n += c;
+        for x in b {
+            if bad.len() < 8 {
+                bad.push(x);
+            }
+        }
+    }
+    (n, bad)
+}
+
 /// The clamping rule over f32 bit patterns through each of the three analog setters.
 fn f32_sweep(full: bool) -> (u64, Vec<(String, String, String)>) {
     // quick: every sign x exponent (2^9) x every value of the 12 leading mantissa bits, trailing 11 bits all-0 and all-1
@@ -319,8 +392,10 @@ pub fn run() {
         ctx.finish();
     }
     let quick = ctx.quick();
-    let alpha = alphabet(quick);
-    let depth = if quick { 3 } else { 4 };
+    // measured: the depth-4 BFS over the full alphabet takes a few seconds, so both tiers run it;
+    // the tiers differ in the f32 sweep (2^22 vs all 2^32 patterns) and the control-port pair sweep
+    let alpha = alphabet(false);
+    let depth = 4;
     #[derive(Clone)]
     struct Node {
         b: Bus,
@@ -425,6 +500,15 @@ pub fn run() {
             e.1.push((l, w));
         }
     }
+    let (pv_ops, pv_bad) = port_value_sweep(!quick);
+    for (k, w, l) in pv_bad {
+        let e = bad.entry(k).or_default();
+        e.0 += 1;
+        if e.1.len() < 3 {
+            e.1.push((l, w));
+        }
+    }
+    ctx.set("port_value_sweep_operations", pv_ops);
     let (f32_calls, f32_bad) = f32_sweep(!quick);
     for (k, w, l) in f32_bad {
         let e = bad.entry(k).or_default();
@@ -445,9 +529,9 @@ pub fn run() {
     ctx.set("transitions", stats.transitions);
     ctx.set("traces_validated_against_impl", stats.transitions as u64 + fan_points + f32_calls + thr_ops);
     ctx.set("threshold_sweep_operations", thr_ops);
-    ctx.set("evaluations", stats.transitions as u64 + fan_points + f32_calls);
+    ctx.set("evaluations", stats.transitions as u64 + fan_points + f32_calls + pv_ops + thr_ops);
     ctx.set("distinct_nontrivial", stats.states);
-    ctx.set("rule", "BFS from 3 start boards: every sequence of the operation alphabet to the depth, deduplicated on the bit-exact reference state; after every operation reads of 0xF0-0xF3 and all getters named in the statement are compared with REF-BOARD; f32: every enumerated bit pattern through the three analog setters against the clamp rule and the comparator bits; fan period for all 256 DAC bytes; threshold sweep: for every DAC byte x 3 analog setters x 5 comparator interrupt selections the input walks up and down through the DAC voltage in steps from 0.3 V to 1 ulp");
+    ctx.set("rule", "BFS from 3 start boards: every sequence of the operation alphabet to the depth, deduplicated on the derived Debug of the real board; after every operation reads of 0xF0-0xF3 and all getters named in the statement are compared with REF-BOARD; f32: every enumerated bit pattern through the three analog setters against the clamp rule and the comparator bits; fan period for all 256 DAC bytes; threshold sweep: for every DAC byte x 3 analog setters x 5 comparator interrupt selections the input walks up and down through the DAC voltage in steps from 0.3 V to 1 ulp; port values: every byte value written to each of the four ports from 5 prior board states, each followed by every external event and its complement, and every ordered pair of writes to the control port 0xF2 followed by three external events");
     ctx.set("exhaustive", !stats.cap_hit);
     ctx.set("bounds", format!("BFS depth {} over {} operations; f32 patterns: {}", depth, alpha.len(), if quick { "2^22 (every sign x exponent x 12 leading mantissa bits, trailing bits all-0 and all-1)" } else { "all 2^32" }));
     ctx.set("bfs_frontiers", Json::Arr(stats.frontier_sizes.iter().map(|n| Json::Int(*n as i64)).collect()));
